@@ -47,6 +47,10 @@ LL = 'lattice_lib'
 
 
 def run(prog, res):
+  from ..rules import hashkeys
+  for q in ('lattice_lib.project_by_dykstra', 'lattice_lib._approximately_project_trapezoid'):
+    hashkeys.check_function(prog, res, prog.function(q))
+  res.floor('T4', 8)
   from ..rules import seqkind
   seqkind.selfcheck()
   for q in ('lattice_lib.finalize_constraints', 'lattice_lib.project_by_dykstra'):
